@@ -65,6 +65,8 @@ Proof. intros. unfold blen in *. rewrite skipn_length. lia. Qed.
 
 Section Inv.
   Variable N : Z.   (* length of the whole input *)
+  Variable il id : Z -> bool.   (* non-ASCII classification *)
+  Variable F : nat.             (* fuel *)
 
   Definition okpos (p : position) : Prop := 0 <= p_offset p <= N.
 
@@ -154,7 +156,6 @@ Section Inv.
       assert (Hr1 : blen (s_rest s1) = blen (b0 :: t) - w) by (apply skipn_blen; lia).
       assert (Hc1 : core s1).
       { unfold core, tokoff. rewrite Hl1, Hr1. cbn [s_pos s_rest s1]. repeat split; try lia.
-        - lia.
         - rewrite <- (firstn_skipn (Z.to_nat w) (b0 :: t)) in Hb. apply Forall_app in Hb. apply Hb.
         - unfold tokoff in Ht. pose proof (blen_nonneg (s_last s)). lia. }
       assert (Hlen : (length (s_rest s1) < length (b0 :: t))%nat).
@@ -170,9 +171,10 @@ Section Inv.
       destruct ((ch =? rune_error) && (w =? 1)). { cbn. apply okpos_sc_pos. assumption. }
       destruct (ch =? 0). { cbn. apply okpos_sc_pos. assumption. }
       destruct (ch =? 10).
-      + cbn. unfold ext, core, chk, tokoff in *. cbn [s_rest s_last s_pos s_ws s_ch s1] in *.
-        rewrite Hr. repeat split; try tauto; try lia. apply Hc1.
-      + cbn. rewrite Hr. repeat split; try assumption. intros; assumption.
+      + cbn [sres_ok next_post]. split; [exact Hext|]. split; [exact Hchk|]. split; [exact Hto|].
+        split; [reflexivity|]. intros _. rewrite Hr. exact Hlen.
+      + cbn [sres_ok next_post]. split; [exact Hext|]. split; [exact Hchk|]. split; [exact Hto|].
+        split; [reflexivity|]. intros _. rewrite Hr. exact Hlen.
   Qed.
 
   (** Peek *)
@@ -185,14 +187,18 @@ Section Inv.
     - eapply sres_ok_bind. { apply sc_next_spec; assumption. }
       intros [c s1] (He1 & Hk1 & _ & _ & _). destruct (c =? 65279).
       + eapply sres_ok_bind. { apply sc_next_spec. apply He1. }
-        intros [c2 s2] (He2 & Hk2 & _ & _ & _). cbn. apply Z.eqb_eq in E. repeat split.
-        * eapply ext_trans; [exact He1 | exact He2].
+        intros [c2 s2] (He2 & Hk2 & _ & _ & _). cbn [sres_ok peek_post]. apply Z.eqb_eq in E.
+        split; [|split; [|split]].
+        * apply (ext_trans s s1); [exact He1 | exact He2].
         * exact Hk2.
+        * reflexivity.
         * intros HE. rewrite HE in E. discriminate.
-      + cbn. apply Z.eqb_eq in E. repeat split; try assumption. intros HE. rewrite HE in E. discriminate.
-    - cbn. apply Z.eqb_neq in E. repeat split.
+      + cbn [sres_ok peek_post]. apply Z.eqb_eq in E. split; [exact He1|]. split; [exact Hk1|]. split; [reflexivity|].
+        intros HE. rewrite HE in E. discriminate.
+    - cbn [sres_ok peek_post]. apply Z.eqb_neq in E. split; [|split; [|split]].
       + apply ext_refl; assumption.
       + destruct Hch; [contradiction | assumption].
+      + reflexivity.
       + auto.
   Qed.
 
@@ -201,27 +207,204 @@ Section Inv.
     let '(c, s') := r in
     ext s s' /\ chk (s_ch s') s' /\
     (c <> EOF -> tokoff s < tokoff s' /\
-                 (length (s_rest s') + (if s_ch s' =? EOF then 0 else 1) <
-                  length (s_rest s) + (if s_ch s =? EOF then 0 else 1))%nat).
+                 (length (s_rest s') + (if (s_ch s' =? EOF)%Z then 0 else 1) <
+                  length (s_rest s) + (if (s_ch s =? EOF)%Z then 0 else 1))%nat).
 
   Lemma sc_Next_spec : forall s, sinv s -> sres_ok (sc_Next s) (Next_post s).
   Proof.
     intros s Hs. unfold sc_Next. eapply sres_ok_bind. { apply sc_peek_spec; assumption. }
     intros [ch s1] (He1 & Hk1 & Hch1 & Heof). destruct (ch =? EOF) eqn:E.
-    - cbn. apply Z.eqb_eq in E. subst ch. repeat split; try assumption.
+    - cbn [sres_ok Next_post]. apply Z.eqb_eq in E. split; [exact He1|]. split.
       + rewrite Hch1. assumption.
-      + intros; congruence.
+      + intros HH. exfalso. apply HH. exact E.
     - apply Z.eqb_neq in E. eapply sres_ok_bind. { apply sc_next_spec. apply He1. }
-      intros [c2 s2] (He2 & Hk2 & Hto & _ & Hlen). cbn. repeat split.
-      + eapply ext_trans; eassumption.
+      intros [c2 s2] (He2 & Hk2 & Hto & _ & Hlen). cbn [sres_ok Next_post s_ch set_ch].
+      split; [|split; [|intros _; split]].
+      + apply (ext_trans s s1); eassumption.
       + assumption.
       + destruct Hk1 as [[? _]|(_ & _ & Hl)]; [contradiction|].
-        destruct He1 as (_ & ? & _). lia.
+        destruct He1 as (_ & ? & _). change (tokoff (set_ch s2 c2)) with (tokoff s2). lia.
       + destruct He1 as (_ & _ & _ & Hl1).
         assert (Hs0 : (s_ch s =? EOF) = false).
         { destruct (s_ch s =? EOF) eqn:E0; [|reflexivity]. apply Z.eqb_eq in E0. apply Heof in E0. contradiction. }
-        rewrite Hs0. destruct (c2 =? EOF) eqn:E2.
+        rewrite Hs0. change (s_rest (set_ch s2 c2)) with (s_rest s2). destruct (c2 =? EOF) eqn:E2.
         * destruct He2 as (_ & _ & _ & Hl2). lia.
         * apply Z.eqb_neq in E2. specialize (Hlen E2). lia.
+  Qed.
+
+  (** ------------------------------------------------------------ loops *)
+
+  Definition loop_post (s : sstate) (r : Z * sstate) : Prop := let '(c, s') := r in ext s s' /\ chk c s'.
+
+  Definition enough (f : nat) (ch : Z) (s : sstate) : Prop := (length (s_rest s) < f)%nat \/ ch = EOF.
+
+  Lemma enough_next : forall f c s s1,
+    enough (S f) c s -> (c <> EOF -> True) ->
+    forall c1, (c1 <> EOF -> (length (s_rest s1) < length (s_rest s))%nat) ->
+    (length (s_rest s1) <= length (s_rest s))%nat -> c <> EOF -> enough f c1 s1.
+  Proof.
+    intros f c s s1 [H|H] _ c1 Hlt Hle Hc; [|contradiction].
+    destruct (Z.eq_dec c1 EOF); [right; assumption|left]. specialize (Hlt n). lia.
+  Qed.
+
+  Lemma skip_ws_spec : forall f ch s, core s -> chk ch s -> enough f ch s ->
+    sres_ok (skip_ws f ch s) (loop_post s).
+  Proof.
+    induction f; intros ch s Hc Hk Hf; cbn [skip_ws]; destruct (is_ws (s_ws s) ch) eqn:E;
+      try (cbn [sres_ok loop_post]; split; [apply ext_refl; assumption | assumption]).
+    - destruct Hf as [Hf|Hf]; [lia|]. subst ch. discriminate E.
+    - assert (Hne : ch <> EOF) by (intros ->; discriminate E).
+      eapply sres_ok_bind; [apply sc_next_spec; assumption|]. intros [c s1] (He & Hk1 & _ & _ & Hlen).
+      eapply sres_ok_weaken.
+      + apply IHf; [apply He | assumption |]. eapply enough_next; try eassumption; auto. apply He.
+      + intros [c' s'] (He' & Hk'). split; [apply (ext_trans s s1); assumption | assumption].
+  Qed.
+
+  Lemma ident_rune_eof : forall b, is_ident_rune il id EOF b = false.
+  Proof. intros. reflexivity. Qed.
+
+  Lemma scan_ident_loop_spec : forall f ch s, core s -> chk ch s -> enough f ch s ->
+    sres_ok (scan_ident_loop il id f ch s) (loop_post s).
+  Proof.
+    induction f; intros ch s Hc Hk Hf; cbn [scan_ident_loop]; destruct (is_ident_rune il id ch true) eqn:E;
+      try (cbn [sres_ok loop_post]; split; [apply ext_refl; assumption | assumption]).
+    - destruct Hf as [Hf|Hf]; [lia|]. subst ch. rewrite ident_rune_eof in E. discriminate E.
+    - assert (Hne : ch <> EOF) by (intros ->; rewrite ident_rune_eof in E; discriminate E).
+      eapply sres_ok_bind; [apply sc_next_spec; assumption|]. intros [c s1] (He & Hk1 & _ & _ & Hlen).
+      eapply sres_ok_weaken.
+      + apply IHf; [apply He | assumption |]. eapply enough_next; try eassumption; auto. apply He.
+      + intros [c' s'] (He' & Hk'). split; [apply (ext_trans s s1); assumption | assumption].
+  Qed.
+
+  Definition digits_post (ch : Z) (s : sstate) (r : Z * Z * Z * sstate) : Prop :=
+    let '(c, _, _, s') := r in
+    ext s s' /\ chk c s' /\ (is_decimal ch = true -> tokoff s + blen (s_last s) <= tokoff s').
+
+  Definition digits_continue (ch base : Z) : bool :=
+    if base <=? 10 then is_decimal ch || (ch =? 95) else is_hex ch || (ch =? 95).
+
+  Lemma digits_continue_eof : forall base, digits_continue EOF base = false.
+  Proof. intros. unfold digits_continue. destruct (base <=? 10); reflexivity. Qed.
+
+  Lemma digits_continue_decimal : forall ch base, is_decimal ch = true -> digits_continue ch base = true.
+  Proof. intros. unfold digits_continue, is_hex. rewrite H. destruct (base <=? 10); reflexivity. Qed.
+
+  Lemma digits_spec : forall f ch base inv ds s, core s -> chk ch s -> enough f ch s ->
+    sres_ok (digits f ch base inv ds s) (digits_post ch s).
+  Proof.
+    induction f; intros ch base inv ds s Hc Hk Hf; cbn [digits]; fold (digits_continue ch base);
+      destruct (digits_continue ch base) eqn:E.
+    - destruct Hf as [Hf|Hf]; [lia|]. subst ch. rewrite digits_continue_eof in E. discriminate E.
+    - cbn [sres_ok digits_post]. split; [apply ext_refl; assumption|]. split; [assumption|].
+      intros Hd. rewrite (digits_continue_decimal _ _ Hd) in E. discriminate E.
+    - assert (Hne : ch <> EOF) by (intros ->; rewrite digits_continue_eof in E; discriminate E).
+      eapply sres_ok_bind; [apply sc_next_spec; assumption|]. intros [c s1] (He & Hk1 & Hto & _ & Hlen).
+      eapply sres_ok_weaken.
+      + apply IHf; [apply He | assumption |]. eapply enough_next; try eassumption; auto. apply He.
+      + intros [[[c' ds'] inv'] s'] (He' & Hk' & _). split; [apply (ext_trans s s1); assumption|].
+        split; [assumption|]. intros _. destruct He' as (_ & Hm & _). lia.
+    - cbn [sres_ok digits_post]. split; [apply ext_refl; assumption|]. split; [assumption|].
+      intros Hd. rewrite (digits_continue_decimal _ _ Hd) in E. discriminate E.
+  Qed.
+
+  (** ------------------------------------------------------------ numbers *)
+
+  (** [s] is reachable from the token start [s0] and at least the first character was consumed *)
+  Definition strict (s0 s : sstate) : Prop := tokoff s0 + blen (s_last s0) <= tokoff s.
+  Definition St (s0 : sstate) (ch : Z) (s : sstate) : Prop := ext s0 s /\ chk ch s /\ strict s0 s.
+
+  Lemma fuel_ext : forall s0 s c, (length (s_rest s0) < F)%nat -> ext s0 s -> enough F c s.
+  Proof. intros s0 s c H (_ & _ & _ & Hl). left. lia. Qed.
+
+  Lemma next_St : forall s0 s, ext s0 s -> strict s0 s \/ s = s0 ->
+    sres_ok (sc_next s) (fun r => St s0 (fst r) (snd r)).
+  Proof.
+    intros s0 s He Hs. eapply sres_ok_weaken; [apply sc_next_spec; apply He|].
+    intros [c s1] (He1 & Hk1 & Hto & _ & _). cbn [fst snd]. split; [apply (ext_trans s0 s); assumption|].
+    split; [assumption|]. unfold strict in *. pose proof (blen_nonneg (s_last s)).
+    destruct Hs as [Hs | ->]; lia.
+  Qed.
+
+  Lemma digits_St : forall s0 s ch base inv ds, (length (s_rest s0) < F)%nat ->
+    ext s0 s -> chk ch s -> strict s0 s \/ (s = s0 /\ is_decimal ch = true) ->
+    sres_ok (digits F ch base inv ds s) (fun r => let '(c, _, _, s') := r in St s0 c s').
+  Proof.
+    intros s0 s ch base inv ds Hf He Hk Hs. eapply sres_ok_weaken.
+    - apply digits_spec; [apply He | assumption | eapply fuel_ext; eassumption].
+    - intros [[[c ds'] inv'] s'] (He' & Hk' & Hd). split; [apply (ext_trans s0 s); assumption|].
+      split; [assumption|]. unfold strict in *. destruct Hs as [Hs | [-> Hdec]].
+      + destruct He' as (_ & Hm & _). lia.
+      + apply Hd. assumption.
+  Qed.
+
+  Definition number_post (s0 : sstate) (r : Z * Z * sstate) : Prop :=
+    let '(tok, ch, s) := r in St s0 ch s /\ (tok = TInt \/ tok = TFloat).
+
+  Lemma scan_number_spec : forall src0 tokpos ch0 sd s0,
+    core s0 -> chk ch0 s0 -> is_decimal ch0 = true -> (length (s_rest s0) < F)%nat ->
+    sres_ok (scan_number F src0 tokpos ch0 sd s0) (number_post s0).
+  Proof.
+    intros src0 tokpos ch0 sd s0 Hc Hk Hd Hfuel. unfold scan_number.
+    pose proof (ext_refl s0 Hc) as He0.
+    (* phase 1 *)
+    eapply sres_ok_bind with
+      (P := fun r => let '(_, _, _, _, ch, sd', s) := r in
+                     ext s0 s /\ chk ch s /\ (strict s0 s \/ (s = s0 /\ is_decimal ch = true /\ sd' = true))).
+    { destruct sd.
+      - cbn [sres_ok]. split; [assumption|]. split; [assumption|]. right. auto.
+      - eapply sres_ok_bind with
+          (P := fun r => let '(_, _, _, ch, s) := r in
+                         ext s0 s /\ chk ch s /\ (strict s0 s \/ (s = s0 /\ is_decimal ch = true))).
+        { destruct (ch0 =? 48).
+          - eapply sres_ok_bind; [apply (next_St s0 s0); auto|]. intros [c1 s1] (He1 & Hk1 & Hs1). cbn [fst snd] in *.
+            destruct (lower c1 =? 120); [|destruct (lower c1 =? 111); [|destruct (lower c1 =? 98)]];
+              try (eapply sres_ok_bind; [apply (next_St s0 s1); auto|]; intros [c2 s2] (He2 & Hk2 & Hs2);
+                   cbn [fst snd sres_ok] in *; auto).
+            cbn [sres_ok]. auto.
+          - cbn [sres_ok]. auto. }
+        intros [[[[base prefix] digsep] ch] s] (He & Hk' & Hs). cbv beta iota.
+        eapply sres_ok_bind; [apply (digits_St s0 s); assumption|].
+        intros [[[c ds] inv] s1] (He1 & Hk1 & Hs1). cbv beta iota.
+        destruct (c =? 46).
+        + eapply sres_ok_bind; [apply (next_St s0 s1); auto|]. intros [c2 s2] (He2 & Hk2 & Hs2).
+          cbn [fst snd sres_ok] in *. auto.
+        + cbn [sres_ok]. auto. }
+    intros [[[[[[base prefix] digsep] invalid] ch] sd'] s] (He & Hk' & Hs). cbv beta iota.
+    (* phase 2 *)
+    eapply sres_ok_bind with
+      (P := fun r => let '(tok, _, _, ch, s) := r in St s0 ch s /\ (tok = TInt \/ tok = TFloat)).
+    { destruct sd'.
+      - destruct ((prefix =? 111) || (prefix =? 98)). { cbn [sres_ok]. apply okpos_sc_pos. apply He. }
+        eapply sres_ok_bind.
+        { apply (digits_St s0 s); try assumption. destruct Hs as [Hs | (? & ? & ?)]; auto. }
+        intros [[[c ds] inv] s1] HSt. cbn [sres_ok]. auto.
+      - cbn [sres_ok]. destruct Hs as [Hs | (_ & _ & Hf)]; [|discriminate Hf]. unfold St. auto. }
+    intros [[[[tok digsep2] invalid2] ch2] s2] ((He2 & Hk2 & Hs2) & Htok). cbv beta iota.
+    destruct (Z.land digsep2 1 =? 0). { cbn [sres_ok]. apply okpos_sc_pos. apply He2. }
+    (* exponent *)
+    eapply sres_ok_bind with
+      (P := fun r => let '(tok, _, ch, s) := r in St s0 ch s /\ (tok = TInt \/ tok = TFloat)).
+    { destruct ((lower ch2 =? 101) || (lower ch2 =? 112)).
+      - destruct ((lower ch2 =? 101) && negb (prefix =? 0) && negb (prefix =? 48)).
+        { cbn [sres_ok]. apply okpos_sc_pos. apply He2. }
+        destruct ((lower ch2 =? 112) && negb (prefix =? 120)).
+        { cbn [sres_ok]. apply okpos_sc_pos. apply He2. }
+        eapply sres_ok_bind; [apply (next_St s0 s2); auto|]. intros [c3 s3] (He3 & Hk3 & Hs3). cbn [fst snd] in *.
+        eapply sres_ok_bind with (P := fun r => St s0 (fst r) (snd r)).
+        { destruct ((c3 =? 43) || (c3 =? 45)).
+          - apply (next_St s0 s3); auto.
+          - cbn [sres_ok fst snd]. unfold St. auto. }
+        intros [c4 s4] (He4 & Hk4 & Hs4). cbn [fst snd] in *.
+        eapply sres_ok_bind; [apply (digits_St s0 s4); auto|].
+        intros [[[c5 ds5] inv5] s5] (He5 & Hk5 & Hs5). cbv beta iota.
+        destruct (Z.land ds5 1 =? 0). { cbn [sres_ok]. apply okpos_sc_pos. apply He5. }
+        cbn [sres_ok]. unfold St. auto.
+      - destruct ((prefix =? 120) && (tok =? TFloat)). { cbn [sres_ok]. apply okpos_sc_pos. apply He2. }
+        cbn [sres_ok]. unfold St. auto. }
+    intros [[[tok3 digsep3] ch3] s3] ((He3 & Hk3 & Hs3) & Htok3). cbv beta iota.
+    destruct ((tok3 =? TInt) && negb (invalid2 =? 0)). { cbn [sres_ok]. apply okpos_sc_pos. apply He3. }
+    match goal with |- sres_ok (if ?c then _ else _) _ => destruct c end.
+    { cbn [sres_ok]. apply okpos_sc_pos. apply He3. }
+    cbn [sres_ok number_post]. unfold St. auto.
   Qed.
 End Inv.
